@@ -267,8 +267,8 @@ func ClaimsDomain() *Domain {
 var admStrategyTypes = []interface{}{nil, "", "RollingUpdate", "OnDelete", "Junk"}
 
 func AdmittedDomain() *Domain {
-	dims := []int{6, 6, 4, 3, 6, 3, 2, 2, 3, 5, 5, 5}
-	d := &Domain{Name: "admitted(CRD lattice x 3 ordinals)", Dims: dims}
+	dims := []int{6, 6, 4, 3, 6, 3, 2, 2, 3, 5, 5, 5, 3}
+	d := &Domain{Name: "admitted(CRD lattice x 3 ordinals + a pod at the largest ordinal)", Dims: dims}
 	d.Make = func(ix []int) *Scenario {
 		sc := &Scenario{Dom: ix}
 		s := &sc.Set
@@ -289,6 +289,13 @@ func AdmittedDomain() *Domain {
 			case 4:
 				sc.Pods = append(sc.Pods, PodSpec{Ord: o, Phase: "Failed", Rev: "t2.0", Owner: "self"})
 			}
+		}
+		// a pod whose name parses to the largest int32 ordinal (anybody can create one with matching labels)
+		switch ix[12] {
+		case 1:
+			sc.Pods = append(sc.Pods, PodSpec{Ord: 2147483647, Phase: "Running", Ready: false, Rev: "t2.0", Owner: "self"})
+		case 2:
+			sc.Pods = append(sc.Pods, PodSpec{Ord: 2147483647, Phase: "Running", Ready: true, Rev: "t2.0", Owner: "none"})
 		}
 		sc.Raw = func(set *apps.StatefulSet) *apps.StatefulSet {
 			// rebuild the spec through JSON so that omitted fields are really absent
